@@ -229,7 +229,28 @@ pub fn check_lattice<D: Distance>(
     single.insert(ids[mix.below(n as u64) as usize]);
     let mut superset: RoaringBitmap = ids.iter().copied().collect();
     superset |= &disjoint;
-    let cands: [Option<&RoaringBitmap>; 6] = [None, Some(&empty), Some(&disjoint), Some(&subset), Some(&single), Some(&superset)];
+    // a partial filter padded with unknown ids: at least as large as the index and spanning its id range,
+    // yet missing stored items
+    let mut padded = RoaringBitmap::new();
+    padded.insert(ids[0]);
+    padded.insert(*ids.last().unwrap());
+    for id in &ids {
+        if mix.chance(0.3) {
+            padded.insert(*id);
+        }
+    }
+    {
+        let mut x = ids[0].wrapping_add(1);
+        let mut added = 0;
+        while added < n + 2 {
+            if !m.items.contains_key(&x) {
+                padded.insert(x);
+                added += 1;
+            }
+            x = x.wrapping_add(1 + (mix.below(3) as u32));
+        }
+    }
+    let cands: [Option<&RoaringBitmap>; 7] = [None, Some(&empty), Some(&disjoint), Some(&subset), Some(&single), Some(&superset), Some(&padded)];
 
     let counts = [
         0usize,
@@ -291,7 +312,7 @@ pub fn check_lattice<D: Distance>(
         for _ in 0..2 {
             let count = [1usize, 2, 5, n / 2 + 1, n][mix.below(5) as usize];
             let o = overs[mix.below(3) as usize];
-            let c = cands[[0usize, 0, 3, 5][mix.below(4) as usize]];
+            let c = cands[[0usize, 0, 3, 5, 6][mix.below(5) as usize]];
             let f = filter_set(c);
             let mut prev: Option<(usize, Vec<(u32, f32)>)> = None;
             let chain = [1usize, 2, 3, 5, (n / 2).max(6), n.max(7), 10 * n + 8, usize::MAX];
@@ -337,7 +358,7 @@ pub fn check_lattice<D: Distance>(
         // (e) defaults: budget unset == explicit count * n_trees; oversampling unset == explicit default
         for _ in 0..3 {
             let count = [1usize, 2, 5, n, 10 * n, usize::MAX / n_trees][mix.below(6) as usize];
-            let c = cands[[0usize, 3][mix.below(2) as usize]];
+            let c = cands[[0usize, 3, 6][mix.below(3) as usize]];
             let o = overs[mix.below(4) as usize];
             let q_unset = Q { count, search_k: None, oversampling: o, candidates: c, by: by.clone() };
             let r_unset = exec(&q_unset, st)?;
@@ -388,7 +409,7 @@ pub fn check_lattice<D: Distance>(
         };
         let count = [1usize, 3, n][mix.below(3) as usize];
         let k = ks[mix.below(ks.len() as u64) as usize];
-        let c = cands[[0usize, 3, 5][mix.below(3) as usize]];
+        let c = cands[[0usize, 3, 5, 6][mix.below(4) as usize]];
         let qa = Q { count, search_k: k, oversampling: None, candidates: c, by: By::Item(id) };
         let qb = Q { count, search_k: k, oversampling: None, candidates: c, by: By::Vector(&v) };
         let a = exec(&qa, st)?;
